@@ -18,6 +18,7 @@ import BB.Oracle.WaitCond
 import BB.Oracle.BufGate
 import BB.Oracle.BufConc
 import BB.Oracle.CleanGate
+import BB.Oracle.Lifecycle
 
 open BB.Oracle
 
@@ -35,7 +36,8 @@ def families : List (String × Fam) := [
   ("waitcond", WaitCondFam.fam),
   ("bufgate", BufGateFam.fam),
   ("bufconc", BufConcFam.fam),
-  ("cleangate", CleanGateFam.fam)
+  ("cleangate", CleanGateFam.fam),
+  ("lifecycle", LifecycleFam.fam)
 ]
 
 structure OAcc (σ : Type) where
